@@ -43,7 +43,7 @@ section
 variable {ctl : Controller γ} {inp : Bytes}
 
 def DLex {α : Type} (P : Disp γ → Prop) (V : α → Prop) (r : DRes γ α) : Prop :=
-  JD r.1 ∧ (∀ e, r.2 = .error e → NoU2 e) ∧ (∀ a, r.2 = .ok a → P r.1 ∧ V a)
+  JD r.1 ∧ (∀ e, r.2 = .error e → NoU2x e) ∧ (∀ a, r.2 = .ok a → P r.1 ∧ V a)
 
 theorem DLex.bind {α β : Type} {P Q : Disp γ → Prop} {V : α → Prop} {V' : β → Prop} {r : DRes γ α}
     {f : Disp γ → α → DRes γ β} (hr : DLex P V r) (hf : ∀ d a, P d → V a → DLex Q V' (f d a)) :
@@ -88,7 +88,7 @@ theorem ofExcept_emitChunkBefore_lex {P : Disp γ → Prop} (hP : ∀ d d', Same
     simp only [Except.error.injEq] at he
     subst he
     split at h'
-    · simp only [Except.error.injEq] at h'; subst h'; exact NoU2.panic (by simp [U2])
+    · simp only [Except.error.injEq] at h'; subst h'; exact NoU2x.panic (by simp [U2])
     · cases h'
   · rename_i d' h'
     have hs : Same d d' := by
@@ -131,7 +131,7 @@ theorem produceTag_lex (hn : NeverFails ctl) (d : Disp γ) (lx : TagLexeme) (hd 
     DLex KS (fun _ => True) (d.produceTag ctl inp lx) := by
   unfold Disp.produceTag
   split
-  · exact ⟨hd.1, fun e he => (by simp only [Except.error.injEq] at he; subst he; exact NoU2.panic (by simp [U2])),
+  · exact ⟨hd.1, fun e he => (by simp only [Except.error.injEq] at he; subst he; exact NoU2x.panic (by simp [U2])),
       fun _ he => by cases he⟩
   · rename_i ft hft
     have hks : KS { d with flags := ft.1 } := ⟨hd.1, tagToToken_sticky (o := ft.2) hft hd.2⟩
@@ -147,7 +147,7 @@ theorem produceNonTag_lex (hn : NeverFails ctl) (d : Disp γ) (lx : NonTagLexeme
   · split
     · unfold Disp.produceText
       split
-      · exact ⟨hd, fun e he => (by simp only [Except.error.injEq] at he; subst he; exact NoU2.panic (by simp [U2])),
+      · exact ⟨hd, fun e he => (by simp only [Except.error.injEq] at he; subst he; exact NoU2x.panic (by simp [U2])),
           fun _ he => by cases he⟩
       · apply DLex.bind (ofExcept_emitChunkBefore_lex JD.same_closed (fun _ h => h) d lx.raw hd)
         intro d1 _ h1 _
@@ -157,7 +157,7 @@ theorem produceNonTag_lex (hn : NeverFails ctl) (d : Disp γ) (lx : NonTagLexeme
           exact ⟨h2, fun e he => (by cases he), fun _ _ => ⟨h2, trivial⟩⟩
     · exact ⟨hd, fun e he => (by cases he), fun _ _ => ⟨hd, trivial⟩⟩
   · split
-    · exact ⟨hd, fun e he => (by simp only [Except.error.injEq] at he; subst he; exact NoU2.panic (by simp [U2])),
+    · exact ⟨hd, fun e he => (by simp only [Except.error.injEq] at he; subst he; exact NoU2x.panic (by simp [U2])),
         fun _ he => by cases he⟩
     · exact ⟨hd, fun e he => (by cases he), fun _ _ => ⟨hd, trivial⟩⟩
     · exact emitToken_lex hn JD.same_closed (fun _ h => h) _ _ _ hd
@@ -169,7 +169,7 @@ theorem adjustFlagsForTag_lex (hn : NeverFails ctl) (ha : AlwaysLex ctl) (d : Di
   · rename_i hp; rw [hd.1] at hp; cases hp
   · split
     · split
-      · exact ⟨hd, fun e he => (by simp only [Except.error.injEq] at he; subst he; exact NoU2.panic (by simp [U2])),
+      · exact ⟨hd, fun e he => (by simp only [Except.error.injEq] at he; subst he; exact NoU2x.panic (by simp [U2])),
           fun _ he => by cases he⟩
       · dsimp only
         split
@@ -182,7 +182,7 @@ theorem adjustFlagsForTag_lex (hn : NeverFails ctl) (ha : AlwaysLex ctl) (d : Di
           obtain ⟨f, hf⟩ := hn.startTag d.ctl ‹LocalName› ‹Ns›
           rw [hf] at herr; cases herr
     · split
-      · exact ⟨hd, fun e he => (by simp only [Except.error.injEq] at he; subst he; exact NoU2.panic (by simp [U2])),
+      · exact ⟨hd, fun e he => (by simp only [Except.error.injEq] at he; subst he; exact NoU2x.panic (by simp [U2])),
           fun _ he => by cases he⟩
       · exact ⟨hd, fun e he => (by cases he), fun _ _ => ⟨⟨hd, ha.endTag _ _⟩, trivial⟩⟩
 
@@ -245,7 +245,7 @@ def PLex (J : κ → Prop) (p : Parser κ) : Prop :=
   p.directive = .lex ∧ p.lexR.fd = .none ∧ J p.x.sink ∧ Inv p.x.sim
 
 theorem parse_lexonly (h : OpsLex env.ops inp J) (last : Bool) (p : Parser κ) (hp : PLex J p) :
-    (∀ e, (Parser.parse env inp last p).2 = .error e → NoU2 e) ∧ PLex J (Parser.parse env inp last p).1 := by
+    (∀ e, (Parser.parse env inp last p).2 = .error e → NoU2x e) ∧ PLex J (Parser.parse env inp last p).1 := by
   obtain ⟨hd, hfd, hJ, hi⟩ := hp
   have hm : p.machine last = ⟨{ p.lexC with isLast := last }, .lexer p.lexR, p.x⟩ := by
     unfold Parser.machine; rw [hd]
@@ -257,7 +257,7 @@ theorem parse_lexonly (h : OpsLex env.ops inp J) (last : Bool) (p : Parser κ) (
     simp only [Parser.store, r3]
   have hpl : PLex J (p.store (runLoop env inp (defaultFuel inp) (p.machine last)).1) := by
     rw [hst]; exact ⟨hd, r4, r1, r2⟩
-  show (∀ e, (Parser.parseLoop env inp last (2 * inp.length + 7 + 1) p).2 = .error e → NoU2 e) ∧
+  show (∀ e, (Parser.parseLoop env inp last (2 * inp.length + 7 + 1) p).2 = .error e → NoU2x e) ∧
     PLex J (Parser.parseLoop env inp last (2 * inp.length + 7 + 1) p).1
   simp only [Parser.parseLoop]
   split
@@ -298,20 +298,20 @@ theorem flushRemaining_same {d d' : Disp γ} {inp : Bytes} {c : Nat} (h : d.flus
     first | (cases h; done) | (simp only [Except.ok.injEq] at h; subst h; exact ⟨rfl, rfl, rfl⟩)
 
 theorem flushRemaining_noU2 {d : Disp γ} {inp : Bytes} {c : Nat} {e : Err} (h : d.flushRemaining inp c = .error e) :
-    NoU2 e := by
+    NoU2x e := by
   unfold Disp.flushRemaining at h
   (repeat' split at h) <;>
-    first | (cases h; done) | (simp only [Except.error.injEq] at h; subst h; exact NoU2.panic (by simp [U2]))
+    first | (cases h; done) | (simp only [Except.error.injEq] at h; subst h; exact NoU2x.panic (by simp [U2]))
 
 theorem Stream.keepTail_lex (s : Stream γ) (data chunk : Bytes) (consumed : Nat) :
-    (∀ e, (s.keepTail w data chunk consumed).2 = .error e → NoU2 e) ∧
+    (∀ e, (s.keepTail w data chunk consumed).2 = .error e → NoU2x e) ∧
     ((s.keepTail w data chunk consumed).2 = .ok () → (s.keepTail w data chunk consumed).1.parser = s.parser) := by
   unfold Stream.keepTail
   split
   · split
     · split
       · exact ⟨fun e he => (by cases he), fun _ => rfl⟩
-      · exact ⟨fun e he => (by simp only [Except.error.injEq] at he; subst he; exact NoU2.panic (by simp [U2])),
+      · exact ⟨fun e he => (by simp only [Except.error.injEq] at he; subst he; exact NoU2x.panic (by simp [U2])),
           fun he => by cases he⟩
     · dsimp only
       split
@@ -323,7 +323,7 @@ theorem Stream.keepTail_lex (s : Stream γ) (data chunk : Bytes) (consumed : Nat
 /-- **One `write` in pure lexer mode**: whatever it fails with is not a panic at a `U2` site. -/
 theorem Stream.write_lexonly (hn : NeverFails w.ctl) (ha : AlwaysLex w.ctl) (s : Stream γ) (data : Bytes)
     (hs : SLex s) :
-    (∀ e, (s.write w data).2 = .error e → NoU2 e) ∧ ((s.write w data).2 = .ok () → SLex (s.write w data).1) := by
+    (∀ e, (s.write w data).2 = .error e → NoU2x e) ∧ ((s.write w data).2 = .ok () → SLex (s.write w data).1) := by
   unfold Stream.write
   cases hcf : s.chunkFor w data with
   | inl s' =>
@@ -363,7 +363,7 @@ theorem Stream.write_lexonly (hn : NeverFails w.ctl) (ha : AlwaysLex w.ctl) (s :
 
 /-- **`end` in pure lexer mode** -/
 theorem Stream.end_lexonly (hn : NeverFails w.ctl) (ha : AlwaysLex w.ctl) (s : Stream γ) (hs : SLex s) :
-    ∀ e, (s.end w).2 = .error e → NoU2 e := by
+    ∀ e, (s.end w).2 = .error e → NoU2x e := by
   intro e he
   unfold Stream.end at he
   dsimp only at he
